@@ -649,6 +649,89 @@ def gen_persample(rng: Rng, tier):
         yield {"fam": "persample", "fn": rng.choice(["hit_rate", "reciprocal_rank"]), "p": {"k": rng.choice([None, 1, 2, 9])},
                "t": {"input": tj(x), "target": tj(y)}}
 
+# ================================================================== family: topk (per-class top-k accuracy; slices = the samples of one class)
+
+def ev_topk(pl) -> Res:
+    """multiclass_accuracy / MulticlassAccuracy with average=None: entry c = the micro top-k accuracy of the samples labelled c
+    alone (NaN for a class without samples); macro = the mean over the classes that have samples."""
+    res = Res()
+    C, k, avg, as_class = pl["C"], pl["p"]["k"], pl["p"]["average"], pl.get("cls", False)
+    batches = [{kk: jt(v) for kk, v in b.items()} for b in pl["batches"]]
+    res.site = "MulticlassAccuracy" if as_class else "multiclass_accuracy"
+    res.cfg = f"average={avg},k={k}"
+
+    def multi(bs):
+        if as_class:
+            m = M.MulticlassAccuracy(num_classes=C, average=avg, k=k)
+            for b in bs:
+                m.update(b["input"], b["target"])
+            return obs(m)
+        return call_real(F.multiclass_accuracy, bs[0]["input"], bs[0]["target"], num_classes=C, average=avg, k=k)
+
+    def single(c):
+        if as_class:
+            m, fed_any = M.MulticlassAccuracy(num_classes=C, average="micro", k=k), False
+            for b in batches:
+                sel = b["target"] == c
+                if bool(sel.any()):
+                    m.update(b["input"][sel], b["target"][sel]); fed_any = True
+            return obs(m) if fed_any else ("ok", [torch.tensor(float("nan"))])
+        x, y = batches[0]["input"], batches[0]["target"]
+        sel = y == c
+        if not bool(sel.any()):
+            return ("ok", [torch.tensor(float("nan"))])
+        return call_real(F.multiclass_accuracy, x[sel], y[sel], num_classes=C, average="micro", k=k)
+    real = multi(batches)
+    res.real = real
+    singles = [single(c) for c in range(C)]
+    label = f"{res.site}({res.cfg})"
+    if singles_ok(res, singles, real):
+        per = stack([s_[1][0] for s_ in singles]).to(torch.float32)
+        if avg is None:
+            expect(res, real, [per], "slice-differs-from-single", label)
+        else:
+            have = ~torch.isnan(per)
+            expect(res, real, [per[have].mean() if bool(have.any()) else torch.tensor(float("nan"))], "average-differs-from-stated", label)
+    if res.ok and real[0] == "ok" and avg is None and "alt" in pl:
+        j = pl["altj"]
+        b2 = []
+        for b, a in zip(batches, pl["alt"]):
+            x2 = b["input"].clone()
+            sel = b["target"] == j
+            x2[sel] = jt(a)[sel]
+            b2.append({"input": x2, "target": b["target"]})
+        real2 = multi(b2)
+        if real2[0] == "ok":
+            keep = [i for i in range(C) if i != j]
+            if not close(real[1][0][keep], real2[1][0][keep]):
+                res.fail("slice-depends-on-other-slice", f"{label}: replacing the scores of the samples of class {j} changed classes {keep}")
+    if as_class:
+        res.progs.append(("cls", "MulticlassAccuracy", {"num_classes": C, "average": avg, "k": k},
+                          [([b["input"], b["target"]], {}) for b in batches], 2e-5))
+    else:
+        res.lines.append(("fn multiclass_accuracy " + enc_args({"input": batches[0]["input"], "target": batches[0]["target"], "num_classes": C,
+                                                                "average": "none" if avg is None else avg, "k": k}), real, None))
+    return res
+
+
+def gen_topk(rng: Rng, tier):
+    while True:
+        C = rng.choice([2, 3, 4])
+        k = rng.choice([1, 2, 2, 3])
+        if k > C:
+            k = C
+        as_class = rng.random() < 0.5
+        present = rng.sample(range(C), rng.randint(1, C))
+        batches, alts = [], []
+        for _b in range(rng.randint(1, 3) if as_class else 1):
+            n = rng.choice([1, 2, 3, 5, 8])
+            profs = [rng.choice(PROFILES) for _ in range(n)]
+            batches.append({"input": tj(rows_tensor([scores(rng, C, pr[0], [Fr(0), Fr(1, 2), Fr(1)] if rng.random() < 0.5 else G8) for pr in profs], "f32")),
+                            "target": tj(torch.tensor([rng.choice(present) for _ in range(n)], dtype=torch.int64))})
+            alts.append(tj(rows_tensor([scores(rng, C, "grid") for _ in range(n)], "f32")))
+        yield {"fam": "topk", "cls": as_class, "C": C, "p": {"k": k, "average": rng.choice([None, None, "macro"])}, "batches": batches,
+               "alt": alts, "altj": rng.randrange(C)}
+
 # ================================================================== class families
 
 def mk(cls, cfg):
@@ -665,8 +748,10 @@ def obs(m):
     return observe(m)
 
 
-def cmp_class(res: Res, multi_obs, single_obs, T, shared_from, relation, label, tol=TOL):
-    """compute() of the multi instance vs compute() of the T single-slice instances."""
+def cmp_class(res: Res, multi_obs, single_obs, T, shared_from, relation, label, tol=TOL, fallback=None):
+    """compute() of the multi instance vs compute() of the T single-slice instances.
+    `fallback(i)`: the functional's value on slice i, used as the expected entry when the single-slice instance of a
+    degenerate slice reports nothing (an empty tensor) — the multi instance shows the undefined ratio (inf / nan) there."""
     bad = [s for s in single_obs if s[0] != "ok"]
     if bad:
         if multi_obs[0] == "ok":
@@ -689,8 +774,12 @@ def cmp_class(res: Res, multi_obs, single_obs, T, shared_from, relation, label, 
         g = got[j]
         sj = [s[1][j].reshape(-1) for s in single_obs]
         if any(v.numel() == 0 for v in sj):
-            # a degenerate slice makes the single-slice instance return an empty tensor ("nothing to report")
-            if all(v.numel() == 0 for v in sj) and g.numel() == 0:
+            # a degenerate slice makes the single-slice instance return an empty tensor ("no update yet")
+            if all(v.numel() == 0 for v in sj):
+                if g.numel() != 0:
+                    res.fail(relation, f"{label}: every single-task instance reports nothing but compute() returns {g.reshape(-1).tolist()}")
+                    return
+                res.notes.append("all-slices-degenerate")
                 continue
             if g.numel() == 0:
                 alive = [i for i, v in enumerate(sj) if v.numel()]
@@ -698,8 +787,11 @@ def cmp_class(res: Res, multi_obs, single_obs, T, shared_from, relation, label, 
                          f"{alive} return {[sj[i].tolist() for i in alive]} (tasks {[i for i, v in enumerate(sj) if not v.numel()]} are degenerate)")
                 res.cfg = "one-degenerate-task"
                 return
-            res.notes.append("single-empty")
-            continue
+            if fallback is None:
+                res.notes.append("single-empty")
+                continue
+            res.notes.append("degenerate-slice-compared-with-functional")
+            sj = [v if v.numel() else fallback(i) for i, v in enumerate(sj)]
         if all(v.numel() == 1 for v in sj):
             e = torch.cat(sj)
             if g.numel() != e.numel() or not close(g, e, tol):
@@ -750,6 +842,24 @@ def classify_window_auroc(cfg, T, batches):
     return "plain"
 
 
+def degenerate_fallback(cls, cfg, batches):
+    """WeightedCalibration / BinaryNormalizedEntropy: the functional on the whole stream of one task's row."""
+    if cls not in ("WeightedCalibration", "BinaryNormalizedEntropy"):
+        return None
+
+    def fb(i):
+        def cat(k):
+            return torch.cat([b[k][i] for b in batches])
+        if cls == "WeightedCalibration":
+            w = batches[0].get("weight", 1.0)
+            r = F.weighted_calibration(cat("input"), cat("target"), cat("weight") if isinstance(w, torch.Tensor) else w)
+        else:
+            r = F.binary_normalized_entropy(cat("input"), cat("target"), weight=cat("weight") if "weight" in batches[0] else None,
+                                            from_logits=cfg.get("from_logits", False))
+        return r.reshape(-1).to(torch.float64)
+    return fb
+
+
 def window_auroc_sig(res: Res, cfg, T, batches):
     """the two defects of WindowedBinaryAUROC.compute() that couple the tasks get one signature each."""
     regime = classify_window_auroc(cfg, T, batches)
@@ -777,7 +887,7 @@ def ev_clsrows(pl) -> Res:
         for j, g in enumerate(mo[1][:shared_from]):
             if g.numel() not in (0, T):
                 res.fail("output-is-not-per-task", f"{label}: compute() output {j} has {g.numel()} value(s) {g.reshape(-1).tolist()} for {T} tasks")
-    cmp_class(res, mo, so, T, shared_from, "task-differs-from-single-task-instance", label, tol)
+    cmp_class(res, mo, so, T, shared_from, "task-differs-from-single-task-instance", label, tol, degenerate_fallback(cls, cfg, batches))
     if cls == "WindowedBinaryAUROC" and not res.ok:
         window_auroc_sig(res, cfg, T, batches)
     if res.ok and mo[0] == "ok" and "alt" in pl:
@@ -1050,6 +1160,36 @@ def gen_clscols(rng: Rng, tier):
         cfg.pop("_w", None)
         yield {"fam": "clscols", "cls": cls, "cfg": cfg, "C": C, "batches": batches}
 
+# ------------------------------------------------------------------ HitRate / ReciprocalRank classes: one result per sample
+
+def ev_clspersample(pl) -> Res:
+    res = Res()
+    cls, k = pl["cls"], pl["p"]["k"]
+    batches = [{kk: jt(v) for kk, v in b.items()} for b in pl["batches"]]
+    res.site, res.cfg = cls, f"k={k}"
+    mo = obs(feed(mk(cls, {"k": k}), [([b["input"], b["target"]], {}) for b in batches]))
+    res.real = mo
+    so = []
+    for b in batches:
+        for i in range(b["input"].shape[0]):
+            so.append(obs(feed(mk(cls, {"k": k}), [([b["input"][i:i + 1], b["target"][i:i + 1]], {})])))
+    if singles_ok(res, so, mo):
+        expect(res, mo, [torch.cat([s_[1][0].reshape(-1) for s_ in so])], "sample-differs-from-single-sample-instance", f"{cls}(k={k})")
+    res.progs.append(("cls", cls, {"k": k}, [([b["input"], b["target"]], {}) for b in batches], 2e-5))
+    return res
+
+
+def gen_clspersample(rng: Rng, tier):
+    while True:
+        C = rng.choice([2, 3, 4])
+        batches = []
+        for _b in range(rng.randint(1, 3)):
+            n = rng.choice([1, 2, 3, 5])
+            profs = pick_profiles(rng, n) if n <= len(PROFILES) else [rng.choice(PROFILES) for _ in range(n)]
+            batches.append({"input": tj(rows_tensor([scores(rng, C, pr[0]) for pr in profs], "f32")),
+                            "target": tj(torch.tensor([rng.randrange(C) for _ in range(n)], dtype=torch.int64))})
+        yield {"fam": "clspersample", "cls": rng.choice(["HitRate", "ReciprocalRank"]), "p": {"k": rng.choice([None, 1, 2, 9])}, "batches": batches}
+
 # ------------------------------------------------------------------ retrieval classes: the `indexes == i` partition
 
 def ev_retrieval(pl) -> Res:
@@ -1130,8 +1270,8 @@ def gen_retrieval(rng: Rng, tier):
 FAMS = {"rows": (ev_rows, gen_rows), "cols": (ev_cols, gen_cols), "count": (ev_count, gen_count), "mlacc": (ev_mlacc, gen_mlacc),
         "outs": (ev_outs, gen_outs), "persample": (ev_persample, gen_persample), "clsrows": (ev_clsrows, gen_clsrows),
         "clswin": (ev_clsrows, lambda rng, tier: gen_clsrows(rng, tier, windowed=True)), "clscols": (ev_clscols, gen_clscols),
-        "retrieval": (ev_retrieval, gen_retrieval)}
-WEIGHTS = {"rows": 10, "cols": 9, "count": 3, "mlacc": 1, "outs": 3, "persample": 1, "clsrows": 5, "clswin": 5, "clscols": 6, "retrieval": 4}
+        "retrieval": (ev_retrieval, gen_retrieval), "topk": (ev_topk, gen_topk), "clspersample": (ev_clspersample, gen_clspersample)}
+WEIGHTS = {"rows": 10, "cols": 9, "count": 3, "mlacc": 1, "outs": 3, "persample": 1, "clsrows": 5, "clswin": 5, "clscols": 6, "retrieval": 4, "topk": 3, "clspersample": 1}
 
 
 def evaluate(pl) -> Res:
@@ -1248,23 +1388,16 @@ def drive(rep: Report, rng: Rng, tier: str, deadline: float, with_model: bool, m
 
 
 def witnesses(rep: Report):
-    """fixed cases run first: the recorded finding and the minimal inputs of every defect this module found."""
+    """fixed cases run first: the minimal inputs of the recorded findings (must still fail, else the finding is stale) and
+    the minimal inputs of the defects that were fixed in /repo (regressions: must hold)."""
     x = torch.tensor([[0.25, 0.5, 0.25], [0.0, 0.25, 0.75], [0.75, 0.25, 0.0], [0.25, 0.5, 0.25]])
     y = torch.tensor([1, 2, 0, 0])
-    fixed = [
+    f32 = lambda v: tj(torch.tensor(v, dtype=torch.float32))     # noqa: E731
+    i64 = lambda v: tj(torch.tensor(v, dtype=torch.int64))       # noqa: E731
+    known = [
         {"fam": "cols", "fn": "multiclass_binned_auroc", "p": {"threshold": THR5, "average": None}, "t": {"input": tj(x), "target": tj(y)}},
         {"fam": "clscols", "cls": "MulticlassBinnedAUROC", "cfg": {"threshold": THR5, "average": None}, "C": 3,
          "batches": [{"input": tj(x), "target": tj(y)}]},
-    ]
-    f32 = lambda v: tj(torch.tensor(v, dtype=torch.float32))     # noqa: E731
-    i64 = lambda v: tj(torch.tensor(v, dtype=torch.int64))       # noqa: E731
-    fixed += [
-        # one task without positive target empties every task's calibration
-        {"fam": "clsrows", "cls": "WeightedCalibration", "cfg": {}, "T": 2,
-         "batches": [{"input": f32([[.5, .5], [.5, .5]]), "target": f32([[1, 0], [0, 0]])}]},
-        # one task without weight empties every task's normalized entropy
-        {"fam": "clsrows", "cls": "BinaryNormalizedEntropy", "cfg": {}, "T": 2,
-         "batches": [{"input": f32([[.5, .5], [.5, .5]]), "target": f32([[1, 0], [1, 0]]), "weight": f32([[1, 1], [0, 0]])}]},
         # "is the tail of the buffer unfilled?" is asked for all tasks at once: task 0's window is the whole buffer only
         # because task 1 has a non-zero score behind the cursor (task 0 alone: 1.0; here: 0.625)
         {"fam": "clsrows", "cls": "WindowedBinaryAUROC", "cfg": {"max_num_samples": 4}, "T": 2,
@@ -1275,14 +1408,29 @@ def witnesses(rep: Report):
         {"fam": "clsrows", "cls": "WindowedBinaryAUROC", "cfg": {"max_num_samples": 1}, "T": 2,
          "batches": [{"input": f32([[.5], [.25]]), "target": i64([[1], [0]])}]},
     ]
-    for pl in fixed:
-        res = evaluate(pl)
-        rep.case(nontrivial_key=("witness", sha(pl)))
-        rep.count("witness")
-        if not res.ok:
-            rep.violation(signature(res), res.what, {"payload": pl, "relation": res.relation})
-        else:
-            rep.notes.append(f"witness no longer fails: {pl['fam']}:{pl.get('fn', pl.get('cls'))} (stale finding?)")
+    regressions = [
+        # fixed b23feff: one task without positive target used to empty every task's calibration (now [1, inf])
+        {"fam": "clsrows", "cls": "WeightedCalibration", "cfg": {}, "T": 2,
+         "batches": [{"input": f32([[.5, .5], [.5, .5]]), "target": f32([[1, 0], [0, 0]])}]},
+        # fixed 622011e: one task without weight used to empty every task's normalized entropy (now [1, nan])
+        {"fam": "clsrows", "cls": "BinaryNormalizedEntropy", "cfg": {}, "T": 2,
+         "batches": [{"input": f32([[.5, .5], [.5, .5]]), "target": f32([[1, 0], [1, 0]]), "weight": f32([[1, 1], [0, 0]])}]},
+        # every task degenerate: the documented "no update yet" answer (empty tensor), single-task instances alike
+        {"fam": "clsrows", "cls": "WeightedCalibration", "cfg": {}, "T": 2,
+         "batches": [{"input": f32([[.5, .5], [.5, .5]]), "target": f32([[0, 0], [0, 0]])}]},
+    ]
+    pending = []
+    for expect_fail, pls in ((True, known), (False, regressions)):
+        for pl in pls:
+            res = evaluate(pl)
+            pending.append((pl, res))
+            rep.case(nontrivial_key=("witness", sha(pl)))
+            rep.count("witness:known" if expect_fail else "witness:regression")
+            if not res.ok:
+                rep.violation(signature(res), res.what, {"payload": pl, "relation": res.relation})
+            elif expect_fail:
+                rep.notes.append(f"witness no longer fails: {pl['fam']}:{pl.get('fn', pl.get('cls'))} (stale finding?)")
+    correspondence(rep, pending)
 
 
 def run(rep: Report):
